@@ -249,6 +249,23 @@ def visits_each_in_order(model: Model, cls: ClassInfo, func: ast.FunctionDef, so
     return False
 
 
+def appends_once_per_iteration(loop: ast.For, listname: str):
+    """-> (ok, why): on every path through the loop body (also those leaving through `continue`) exactly one element is
+    appended to `listname`; `break`/`return` inside the body count as a violation."""
+    from .paths import paths, calls_on_path
+
+    for evs, status in paths(loop.body, loop_iters=(1,)):
+        if status == "raise":
+            continue
+        n = sum(1 for c in calls_on_path(evs) if last_attr(c) == "append" and isinstance(c.func, ast.Attribute) and unparse(c.func.value) == listname)
+        conds = [(" ".join(unparse(e.node).split())[:50], e.val) for e in evs if e.kind == "cond"]
+        if status in ("break", "return"):
+            return False, f"the loop is left early ({status}) under {conds}"
+        if n != 1:
+            return False, f"{n} elements are appended on the path {conds}"
+    return True, ""
+
+
 def iterations(node) -> List[tuple]:
     """[(iter expression, target, body-or-element, kind)] for every for-loop and
     comprehension generator inside node."""
